@@ -63,7 +63,7 @@ def make_problem(spec):
         return problems.Problem("scripted", n, sc.fun, sc.grad, lb, ub, np.zeros(n), False, {"script": spec["script"]})
     rng = np.random.default_rng([spec["pseed"], 7])
     p = problems.gen(rng, spec["family"], spec["n"], box_kinds=spec.get("box_kinds"),
-                     start=spec.get("start"), cond=spec.get("cond"))
+                     start=spec.get("start"), cond=spec.get("cond"), box_spread=spec.get("box_spread"))
     if spec.get("nobox"):
         p.lb[:] = -np.inf
         p.ub[:] = np.inf
